@@ -305,6 +305,12 @@ def arith(op, a, b, ex=None, node=None):
     if op == ">>" and isinstance(y, int):
         xx = x if z3.is_expr(x) else z3.IntVal(x)
         return xx / (2**y)
+    if op in ("&", "|", "^"):
+        # bitwise operators on python ints, modelled on 64-bit two's complement (exact for |x| < 2**63, which is stated)
+        bx = z3.Int2BV(x if z3.is_expr(x) else z3.IntVal(x), 64)
+        by = z3.Int2BV(y if z3.is_expr(y) else z3.IntVal(y), 64)
+        r = {"&": bx & by, "|": bx | by, "^": bx ^ by}[op]
+        return z3.BV2Int(r, True)
     raise Unsupported("int op %s on symbolic operands" % op)
 
 
